@@ -65,6 +65,9 @@ type Options struct {
 	// AfterWrite is called (without locks held) after a client Write has
 	// delivered its bytes and before it returns.
 	AfterWrite func(data []byte)
+	// AfterWriteDone is called (without locks held) when a client Write is about to return,
+	// whatever its outcome.
+	AfterWriteDone func(err error)
 	// BeforeDeadline is called (without locks held) before a client-side
 	// SetReadDeadline is applied, with its argument.
 	BeforeDeadline func(t time.Time)
@@ -246,6 +249,14 @@ func (c *Conn) Read(b []byte) (int, error) {
 // Write implements net.Conn. One call is atomic with respect to other
 // writers; nothing is guaranteed across calls.
 func (c *Conn) Write(b []byte) (int, error) {
+	n, err := c.write(b)
+	if c.isClient && c.p.opts.AfterWriteDone != nil {
+		c.p.opts.AfterWriteDone(err)
+	}
+	return n, err
+}
+
+func (c *Conn) write(b []byte) (int, error) {
 	idx, f, sticky := c.beginOp("write")
 	p := c.p
 	p.mu.Lock()
